@@ -45,15 +45,27 @@ def _work(job):
     t0 = time.time()
     out = {"qual": qual, "label": (qual + "@" + role) if role else qual, "obligations": [], "error": None, "paths": 0}
     try:
-        reg = build_registry(repo_root, contract_modules)
-        eng = Engine(reg.repo, reg)
-        eng.role = role
-        con = reg.contract(qual)
-        if con is None:
-            raise OutOfSubset("no contract registered for %s" % qual)
-        if hooks_mod:
-            importlib.import_module(hooks_mod).attach(eng, reg, qual)
-        out["paths"] = verify_function(eng, con, label=(qual + "@" + role) if role else None)
+        for careful in (False, True):
+            reg = build_registry(repo_root, contract_modules)
+            eng = Engine(reg.repo, reg)
+            eng.role = role
+            # second attempt only: a failed obligation whose goal contradicts the path condition is not assumed afterwards
+            # (otherwise it kills the path and everything behind it, and the function looks vacuous instead of wrong)
+            eng.check_goal_consistency = careful
+            con = reg.contract(qual)
+            if con is None:
+                raise OutOfSubset("no contract registered for %s" % qual)
+            if hooks_mod:
+                importlib.import_module(hooks_mod).attach(eng, reg, qual)
+            try:
+                out["paths"] = verify_function(eng, con, label=(qual + "@" + role) if role else None)
+            except OutOfSubset as ex:
+                if not careful and "vacuity guard" in str(ex):
+                    continue
+                raise
+            if not careful and getattr(eng, "unreached", None):
+                continue
+            break
         out["label"] = (qual + "@" + role) if role else qual
         out["explore_s"] = round(time.time() - t0, 2)
         out["unreached"] = list(getattr(eng, "unreached", []))
